@@ -20,8 +20,11 @@ tie to code: real pipeline runs (stages gen, erase, overwrite), every program tr
                (K3) declaration tags of the model doc == INV             [theorem doc_inventory, observed]
                (K4) Lean `semProgram p` == non-layout pieces of the doc, `condOK p` holds   [doc_pieces_partial]
                (K5) literal / operator pieces of the doc == LIT          [literals_ops_present, observed]
+             Modelled: Kotlin (Props/C12.lean) and Scala (Props/C12Scala.lean, namespace Heph.Props.C12.Scala; ops
+             `trans.scala.doc|inventory|sem`; K5 reads `is` / `!is` as Scala's `isInstanceOf`).
              witnesses: the counterexample of `doc_pieces` / `balanced` (a lambda as the condition of a
-             conditional) is replayed on the real KotlinTranslator.
+             conditional) is replayed on the real KotlinTranslator and ScalaTranslator (Scala also: `new` as the
+             condition, whose `ne` is cut off).
 failing input: (S1)-(S3) are judged on the real code alone, so a difference IS the failing input: language,
              generator replay (lang, seed, switches, depth), stage, first differing declaration.  If only
              (K1)-(K5) break (model vs code), the program is re-examined with S1-S3 for every language and
